@@ -28,6 +28,7 @@ func TestMain(m *testing.M) {
 	vh.Rule("rapid histories on one Conn with 1..16 channels against a scripted peer (race-detector build): channels 1..n are created concurrently by 1..n creator goroutines (the peer acknowledges SETUP with PROTACK on the same id), every channel has its own goroutine that runs 1..3 request/response rounds (request of 1..3 packets, response from the grammar, read up to the final DONE), the peer waits for the requests of a round and then interleaves the responses of all channels packet by packet in a generated order, packets for never-created ids are injected between rounds, finally logical channels are closed concurrently and the connection is closed; GOMAXPROCS in {1,2,4,16}; a slice of the cases runs through the real NewConn over loopback TCP. Oracle: all ids distinct, NewChannel succeeds, per channel the delivered packages = that channel's script in order (and nothing of another script), the peer sees the right id and consecutive packet numbers (mod 256) on every packet of a logical channel and the channel's own request text in it, every junk packet yields one connection error and changes no stream, no race-detector report. Non-trivial: >= 2 channels whose responses were interleaved and >= 1 concurrent creation or close; distinct by the history")
 	vh.Assume("one sender/consumer goroutine per channel (concurrent use of one channel is outside what the API supports); schedules are sampled, not enumerated; junk packets are injected while no consumer waits, so the connection error cannot be picked up by a consumer's select; no PACKSIZE change while several channels are active")
 	vh.Rule("also: the server acknowledges a teardown (header-only CLOSE) while the channel is still registered - channels created afterwards still work; 40..520 logical channels (33000 in the thorough tier) created and closed over the life of one connection with 1..16 open at once: every NewChannel succeeds, every id is new, every response is routed to its channel")
+	vh.Rule("also: a channel that received more unparsable responses than its error queue holds, errors never fetched: Close of it returns and the other channels receive their packages")
 	vh.Main(m, "C12")
 }
 
